@@ -137,6 +137,31 @@ def run(tier, rnd, out):
     evens = list(range(2, 255, 2))
     lib.differential(out, "encode-after-decode", [{"mask": m} for m in evens], [back(m) for m in evens], None, ["ok %02x" % m for m in evens],
                      lambda c: "encode(decode(%d))" % c["mask"], sample=lambda c: c)
+    # a decoded set handed on as the library itself does (a schedule object built from it, on every weekday, its start time already past):
+    # the set still encodes to its mask afterwards, and so does the object's own `days`
+    import time_machine
+    from aioswitcher.schedule.parser import SwitcherSchedule
+    obj = []; oc_ = []
+    for wd in range(7):
+        with time_machine.travel(1_700_000_000.25 + 86400 * wd + 43200, tick=False):
+            for m in evens:
+                try:
+                    ds = tools.bit_summary_to_days(m); sch = SwitcherSchedule("1", True, ds, "00:00", "01:00")
+                    a_ = "ok " + tools.weekdays_to_hexadecimal(ds); b_ = "ok " + tools.weekdays_to_hexadecimal(sch.days)
+                    obj.append(a_ if a_ == b_ else "the decoded set now encodes to %s, the schedule's days to %s" % (a_[3:], b_[3:]))
+                except Exception as e: obj.append("raised " + type(e).__name__)
+                oc_.append({"mask": m, "weekday": (3 + wd) % 7})
+    lib.differential(out, "decoded-set-handed-to-a-schedule-object-then-encoded", oc_, obj, None, ["ok %02x" % c["mask"] for c in oc_],
+                     lambda c: "encode(decode(%d)) after SwitcherSchedule(.., decode(%d), '00:00', ..) on weekday %d" % (c["mask"], c["mask"], c["weekday"]), sample=lambda c: c)
+    # ... and the encoder as create_schedule reaches it: the mask byte of the created record, or a refusal, for sets and sequences with and without repeats
+    sel = [(f, l) for f, l in cs if f in (1, 2) and l][::5][:500] + [(2, [0, 0]), (2, [6, 6, 2]), (2, [1, 2, 1]), (1, [0, 6])]
+    ops = [{"kind": 6, "args": ["10:00", "11:00", l, "set" if f == 1 else "list"], "id": "ab1c2d", "key": "18", "now": 1_700_000_000, "replies": ["00" * 8 + "a1b2c3d4" + "00" * 12, "01"]} for f, l in sel]
+    got = []
+    for t in world.run_cases_fresh(ops):
+        fs = [x for x in t.split("|")[:-1]]
+        got.append("ok " + fs[1][170:172] if len(fs) >= 2 and len(fs[1]) >= 172 else "raised" if t.split("|")[-1].startswith("exc:") else "no record: " + t[-60:])
+    lib.differential(out, "encode-as-create_schedule-reaches-it", [{"form": f, "days": l} for f, l in sel], got, None,
+                     lib.run_model([lib.req("weekdays_spec", f, l) for f, l in sel]), lambda c: "create_schedule('10:00', '11:00', %s of %s): mask byte of the record" % (["", "set", "list"][c["form"]], c["days"]), sample=lambda c: c)
     out.exhaustive = True
 
 
